@@ -1114,7 +1114,6 @@ Theorem poryswitch_list_selects :
       | None => if env_errors then err_tok (cur ts) "no poryswitch case found" else continue acc
       end.
 Proof. exact list_pory_selected. Qed.
-Print Assumptions poryswitch_list_selects.
 
 (* L2. no matching case and no '_': normal mode fails at the poryswitch token *)
 Theorem poryswitch_list_no_case_fails :
@@ -1129,7 +1128,6 @@ Proof.
   rewrite (list_pory_selected _ _ _ _ _ _ _ _ _ _ _ _ C P H1 H2). cbv zeta. unfold pory_select. rewrite A1, A2.
   eexists. split; [reflexivity|]. split; reflexivity.
 Qed.
-Print Assumptions poryswitch_list_no_case_fails.
 
 (* L3. lint mode: nothing is contributed *)
 Theorem poryswitch_list_no_case_lint :
@@ -1143,7 +1141,6 @@ Proof.
   intros switches f k ts acc sc sv ts1 cases ts2 C P H1 H2 A1 A2.
   rewrite (list_pory_selected _ _ _ _ _ _ _ _ _ _ _ _ C P H1 H2). cbv zeta. unfold pory_select. rewrite A1, A2. reflexivity.
 Qed.
-Print Assumptions poryswitch_list_no_case_lint.
 
 (* L4. the case table: the cases in source order, each with the items of its own content (brace form: a whole list up
    to '}', colon form: one item; a nested poryswitch is an item); the table is the reversed sequence, so that ... *)
@@ -1155,7 +1152,6 @@ Proof.
   intros switches env_errors f k start ts cases ts' H.
   destruct (list_cases_table_sec _ _ _ _ _ _ _ _ _ H) as (l & CS & RB & E). rewrite app_nil_r in E. eauto.
 Qed.
-Print Assumptions list_cases_table.
 
 (* L5. ... the lookup finds the LAST case, in source order, that carries the label (Go: later map assignment wins);
    and pory_select is: the last case labelled with the switch value, else the last case labelled '_' *)
@@ -1170,7 +1166,6 @@ Proof.
   - subst x. assert (K : assoc (rev l) (sval sv) = Some b) by (apply assoc_rev_last; eauto). rewrite K. reflexivity.
   - subst x. apply assoc_rev_none in A. rewrite A. apply assoc_rev_last. eauto.
 Qed.
-Print Assumptions poryswitch_last_case_wins.
 
 (* L6. ERASURE.  A list that parses, parses to the same items when every poryswitch in it is replaced by the content of
    its selected case (list_erase: recursively; nothing when lint mode finds no case): src contains no poryswitch, and
@@ -1186,7 +1181,6 @@ Theorem poryswitch_list_erasure :
         curis (closing_of k) rest = true -> (List.length src < f')%nat ->
         list_value switches env_errors f' k true (src ++ rest) acc = Ok (items, rest).
 Proof. exact list_erasure_sec. Qed.
-Print Assumptions poryswitch_list_erasure.
 
 (* in particular with the original continuation *)
 Theorem poryswitch_list_erasure_same_rest :
@@ -1201,7 +1195,6 @@ Proof.
   destruct (list_erasure_sec _ _ _ _ _ _ _ _ H) as (src & E & NP & R). exists src. split; [exact E|]. split; [exact NP|].
   apply R; [exact CK|eapply list_value_ends_closing; exact H|lia].
 Qed.
-Print Assumptions poryswitch_list_erasure_same_rest.
 
 (* "no token of any other case influences the output": two lists (same switch assignment) that erase to the same
    source have the same items, whatever their non-selected cases contain *)
@@ -1223,7 +1216,6 @@ Proof.
   pose proof (R2 r1 (S (List.length src)) CK C1 (Nat.lt_succ_diag_r _)) as K2.
   rewrite K1 in K2. injection K2 as ->. reflexivity.
 Qed.
-Print Assumptions list_items_determined_by_erased_source.
 
 (* what list_erase is: (a) at a poryswitch it keeps the erased content of the selected case only *)
 Theorem list_erase_selects :
@@ -1242,7 +1234,6 @@ Proof.
   rewrite list_erase_unfold. cbv zeta. unfold closing_of in C. rewrite C, P, H1. cbv beta iota.
   rewrite H2. unfold pory_select. destruct (assoc cases (sval sv)); [reflexivity|]. destruct (assoc cases (t "_")); reflexivity.
 Qed.
-Print Assumptions list_erase_selects.
 
 (* (b) on input without poryswitch tokens it returns exactly the tokens it consumed *)
 Theorem list_erase_identity_without_poryswitch :
@@ -1253,7 +1244,6 @@ Proof.
   intros switches env_errors f k multi ts src ts' EO NP H.
   destruct (list_erase_nopory_identity _ _ _ _ _ _ _ _ _ H EO NP) as (s & E1 & E2). cbn in E1. subst s. exact E2.
 Qed.
-Print Assumptions list_erase_identity_without_poryswitch.
 
 (* (c) erasing the erased source changes nothing *)
 Theorem list_erase_idempotent :
@@ -1267,7 +1257,6 @@ Proof.
   destruct (list_erase_idempotent_sec _ _ _ _ _ _ _ _ H) as (src & E & R). exists src. split; [exact E|].
   apply R; [exact CK|eapply list_value_ends_closing; exact H|lia].
 Qed.
-Print Assumptions list_erase_idempotent.
 
 (* L7. the statements.  `movement M { ... }`: the statement with the poryswitches erased from its body parses to the
    same movement statement (hd = the tokens before the opening brace lb) *)
@@ -1281,7 +1270,6 @@ Theorem movement_statement_erasure :
       forall f', (List.length src < f')%nat ->
         parse_movement switches env_errors f' (hd ++ lb :: src ++ ts') = Ok (tp, ts').
 Proof. exact movement_statement_erasure_sec. Qed.
-Print Assumptions movement_statement_erasure.
 
 Theorem mart_statement_erasure :
   forall switches env_errors consts f ts tp ts',
@@ -1293,7 +1281,6 @@ Theorem mart_statement_erasure :
       forall f', (List.length src < f')%nat ->
         parse_mart switches env_errors consts f' (hd ++ lb :: src ++ ts') = Ok (tp, ts').
 Proof. exact mart_statement_erasure_sec. Qed.
-Print Assumptions mart_statement_erasure.
 
 Theorem moves_operator_erasure :
   forall switches env_errors f ts mv ts',
@@ -1305,7 +1292,6 @@ Theorem moves_operator_erasure :
       forall f', (List.length src < f')%nat ->
         moves_operator switches env_errors f' (m :: lp :: src ++ ts') = Ok (mv, ts').
 Proof. exact moves_operator_erasure_sec. Qed.
-Print Assumptions moves_operator_erasure.
 
 (* ---------- text ---------- *)
 
@@ -1320,7 +1306,6 @@ Theorem poryswitch_text_selects :
       | None => if env_errors then err_tok (cur ts) "no poryswitch case found" else Ok ([], [], ts2)
       end.
 Proof. exact pory_text_selected. Qed.
-Print Assumptions poryswitch_text_selects.
 
 Theorem poryswitch_text_no_case_fails :
   forall switches parse_format f ts sc sv ts1 cases ts2,
@@ -1333,7 +1318,6 @@ Proof.
   rewrite (pory_text_selected _ _ _ _ _ _ _ _ _ _ H1 H2). unfold pory_select. rewrite A1, A2.
   eexists. split; [reflexivity|]. split; reflexivity.
 Qed.
-Print Assumptions poryswitch_text_no_case_fails.
 
 (* T2. the case table is exactly the reversed sequence of the cases, each with text_value of its own content *)
 Theorem text_cases_table :
@@ -1344,7 +1328,6 @@ Proof.
   intros parse_format f start ts cases ts' H.
   destruct (pory_text_cases_table _ _ _ _ _ _ _ H) as (l & CS & RB & E). rewrite app_nil_r in E. eauto.
 Qed.
-Print Assumptions text_cases_table.
 
 Theorem text_cases_table_complete :
   forall parse_format l start ts ts',
@@ -1353,7 +1336,6 @@ Theorem text_cases_table_complete :
 Proof.
   intros parse_format l start ts ts' CS RB. rewrite <- (app_nil_r (rev l)). apply pory_text_cases_complete; assumption.
 Qed.
-Print Assumptions text_cases_table_complete.
 
 (* T3. what a text poryswitch returns *)
 Theorem poryswitch_text_contributes :
@@ -1367,7 +1349,6 @@ Theorem poryswitch_text_contributes :
       | None => env_errors = false /\ v = [] /\ sty = []
       end.
 Proof. exact pory_text_contributes_sec. Qed.
-Print Assumptions poryswitch_text_contributes.
 
 (* T4. ERASURE for the text statement: `text T { poryswitch(S) { ... } }` parses to the same text definition as
    `text T { value }` where value = the tokens src ++ [lastx] of the content of the selected case: the last case x
@@ -1397,7 +1378,6 @@ Theorem text_statement_erasure :
                   forall f', parse_text switches env_errors parse_format f' (hd ++ lb :: src ++ lastx :: ts') = Ok (td, ts'))
          end).
 Proof. exact text_statement_erasure_sec. Qed.
-Print Assumptions text_statement_erasure.
 
 (* ============================================================================================================ *)
 (* Part 5: the format() operator of the model (Format.parse_format) is local, so T4 holds for it unconditionally  *)
@@ -1762,8 +1742,6 @@ Proof.
   exists x, l1, l2, tsc, tsn. split; [exact El|]. split; [exact N|]. split; [exact XX|]. split; [exact CS1|]. split; [exact ST|].
   apply REP. right. apply real_format_local.
 Qed.
-Print Assumptions text_statement_erasure_real_format.
-Print Assumptions real_format_local.
 
 (* ============================================================================================================ *)
 (* EXAMPLES: the hypotheses are satisfiable on concrete programs (lexed by the model's lexer)                    *)
